@@ -29,6 +29,9 @@ type Case struct {
 
 func Gen() *rapid.Generator[Case] {
 	return rapid.Custom(func(t *rapid.T) Case {
+		if rapid.IntRange(0, 5).Draw(t, "systemleg") == 0 {
+			return SysGen().Draw(t, "sys")
+		}
 		var c Case
 		c.Kind = rapid.SampledFrom([]string{"merge", "compact-latest", "compact-skip"}).Draw(t, "kind")
 		nk := rapid.IntRange(1, 10).Draw(t, "nkeys")
